@@ -215,6 +215,17 @@ def index_memo_reset(ck: Checker, rule: str) -> None:
     ck.require(not lost, rule, clear, clear.node if clear is not None else cls.node, "clear() resets everything the index memoises in memory",
                f"ObjectDBIndex memoises {lost} on the instance but clear() does not reset it: after a stale index was cleared the same object keeps answering from the old contents",
                construct="ObjectDBIndex.clear / memo reset")
+    # ... and update() - the other method that changes what the index holds - resets or maintains it as well
+    upd = cls.methods.get("update")
+    if upd is not None and memo - {"index"}:
+        touched = self_stores(upd)
+        for x in walk_own(upd.node):
+            if isinstance(x, ast.Call) and isinstance(x.func, ast.Attribute) and isinstance(x.func.value, ast.Attribute) and isinstance(x.func.value.value, ast.Name) and x.func.value.value.id == "self":
+                touched.add(x.func.value.attr)
+        stale = sorted(a for a in memo - {"index"} if a not in touched)
+        ck.require(not stale, rule, upd, upd.node, "update() resets or maintains everything the index memoises in memory",
+                   f"ObjectDBIndex memoises {stale} on the instance but update() neither resets nor maintains it: directories indexed after the first read are never re-validated against the store, so a stale index is not noticed",
+                   construct="ObjectDBIndex.update / memo reset")
     for name in ("dir_hashes", "hashes", "intersection"):
         m = cls.methods.get(name)
         if m is not None:
